@@ -25,6 +25,8 @@ CFG = {'module': 'Dnp3.Props.C07',
                  'covered by the outstation engine when built'],
  'level_text': 'Lean theorems over processHeader for every control octet, address and secondary state (acts '
                'only if addressed, broadcasts never acknowledged, link status answered, confirmed data once '
-               'per FCB toggle); tie: constants regenerated, exhaustive decision-table correspondence '
-               'through the real link Layer',
+               'per FCB toggle) and over the session model (a foreign master\'s fragment of ANY content has '
+               'no effect beyond the frame counter; a broadcast fragment of ANY content is never answered: D6 '
+               'repaired); tie: constants regenerated, exhaustive decision-table correspondence '
+               'through the real link Layer, outstation engine for the application part',
  'level_note': 'trusted: Lean kernel, translate.py, harness; Rust modelled not verified'}
